@@ -112,9 +112,15 @@ class Function(Subroutine):
         hover_array = [f"{' '.join(keyword_list)} {fun_sig}"]
         hover_array, docs = self.get_docs_full(hover_array, long, drop_arg)
         # Only append the return value if using long form
-        if self.result_obj and long:
-            # Parse the documentation from the result variable
-            arg_doc, doc_str = self.result_obj.get_hover()
+        # The result may be a procedure pointer with this very function (or one
+        # that leads back to it) as its interface: expand it only once
+        if self.result_obj and long and not getattr(self, "_expanding_result", False):
+            self._expanding_result = True
+            try:
+                # Parse the documentation from the result variable
+                arg_doc, doc_str = self.result_obj.get_hover()
+            finally:
+                self._expanding_result = False
             if doc_str is not None:
                 docs.append(f"\n**Return:**  \n`{self.result_obj.name}`{doc_str}")
             hover_array.append(arg_doc)
